@@ -5,6 +5,12 @@
    wire of width w); `is_bit v` = v is 0 or 1.  All widths, arities, constants and inputs are universally quantified. *)
 From V Require Import Base.Bits Gen.WireOps Gen.Prims Spec.C08 Model.StructLogic Proofs.C08.All.
 
+(* Width formulas.  Xor2's internal wires are `mid wa wb wr` bits wide and Equal's xor wire `eqw wa wb` bits; the models take the formulas
+   as parameters and the check PROBES them on the real blocks.  The headline theorems below are stated for the formulas of the current /repo
+   (mid_max, eqw_max: after the repairs c94f404 / 3260a32) and carry no width guard; the check requires the probe to find exactly these
+   (anything else is a broken obligation, and the sweep over mixed widths then produces the failing input).  The `_any_policy` theorems
+   are the formula-generic statements the headlines are instances of.  Statements about the pre-repair formulas live only in the history
+   section at the end. *)
 (* ------------------------------------------------------------------ 1- and 2-input gates (r of width w) *)
 Theorem C08_buf : forall w a, 0 <= w -> Buf_m w a = buf_spec w a.
 Proof. exact Buf_correct. Qed.
@@ -21,46 +27,36 @@ Theorem C08_nand2 : forall wa wr a b, 0 <= wa -> 0 <= wr -> fits wa a -> Nand2_m
 Proof. exact Nand2_correct. Qed.
 Theorem C08_nor2 : forall wa wr a b, 0 <= wa -> 0 <= wr -> fits wa a -> fits wa b -> Nor2_m wa wr a b = nor2_spec wr a b.
 Proof. exact Nor2_correct. Qed.
-(* Xor2's internal wires are  mid wa wb wr  bits wide, `mid` being the constructor's width formula (probed on the real block by the
-   check).  Exact whenever the result is no wider than the internal wires; C08_xor2_general says what is computed otherwise. *)
-Theorem C08_xor2 : forall mid wa wb wr a b, 0 <= wa -> 0 <= wb -> 0 <= wr <= mid wa wb wr -> fits wa a -> fits wb b ->
+(* Xor2 = four NANDs, internal wires as wide as the widest of a, b, r: a ^ b for ANY three widths *)
+Theorem C08_xor2 : forall wa wb wr a b, 0 <= wa -> 0 <= wb -> 0 <= wr -> fits wa a -> fits wb b ->
+  Xor2_m mid_max wa wb wr a b = xor2_spec wr a b.
+Proof. exact Xor2_correct_max. Qed.
+(* formula-generic: exact whenever the result is no wider than the internal wires; and what is computed in general *)
+Theorem C08_xor2_any_policy : forall mid wa wb wr a b, 0 <= wa -> 0 <= wb -> 0 <= wr <= mid wa wb wr -> fits wa a -> fits wb b ->
   Xor2_m mid wa wb wr a b = xor2_spec wr a b.
 Proof. exact Xor2_correct. Qed.
 Theorem C08_xor2_general : forall mid wa wb wr a b, 0 <= wa -> 0 <= wb -> 0 <= wr -> 0 <= mid wa wb wr -> fits wa a -> fits wb b ->
   Xor2_m mid wa wb wr a b = trunc wr (Z.lnot (trunc (mid wa wb wr) (Z.lnot (Z.lxor a b)))).
 Proof. exact Xor2_general. Qed.
-(* formula of the tree BEFORE the repair of finding C08-xor2-wide-result (internal wires of a's width): guard wr <= wa, and a witness
-   that the guard is needed *)
-Theorem C08_xor2_mid_a : forall wa wb wr a b, 0 <= wr <= wa -> 0 <= wb -> fits wa a -> fits wb b ->
-  Xor2_m mid_a wa wb wr a b = xor2_spec wr a b.
-Proof. exact Xor2_correct_a. Qed.
-Theorem C08_xor2_wide_refuted : exists wa wb wr a b, fits wa a /\ fits wb b /\ Xor2_m mid_a wa wb wr a b <> xor2_spec wr a b.
-Proof. exact Xor2_wide_refuted. Qed.
-(* formula AFTER the repair (max of the three widths): no guard *)
-Theorem C08_xor2_mid_max : forall wa wb wr a b, 0 <= wa -> 0 <= wb -> 0 <= wr -> fits wa a -> fits wb b ->
-  Xor2_m mid_max wa wb wr a b = xor2_spec wr a b.
-Proof. exact Xor2_correct_max. Qed.
 
 (* ------------------------------------------------------------------ n-input gates: EVERY arity (>= 1; >= 2 for Xor), every width *)
 Theorem C08_and : forall w ins, 0 <= w -> ins <> [] -> And_m w ins = and_spec w ins.
 Proof. exact And_correct. Qed.
 Theorem C08_or : forall w ins, 0 <= w -> ins <> [] -> Or_m w ins = or_spec w ins.
 Proof. exact Or_correct. Qed.
-Theorem C08_xor : forall mid wi w ins, 0 <= w -> 0 <= wi -> w <= mid wi wi w -> w <= mid w wi w -> (2 <= length ins)%nat ->
+Theorem C08_xor : forall wi w ins, 0 <= w -> 0 <= wi -> (2 <= length ins)%nat -> Forall (fits wi) ins -> Xor_m mid_max wi w ins = xor_spec w ins.
+Proof. exact Xor_correct_max. Qed.
+Theorem C08_xor_any_policy : forall mid wi w ins, 0 <= w -> 0 <= wi -> w <= mid wi wi w -> w <= mid w wi w -> (2 <= length ins)%nat ->
   Forall (fits wi) ins -> Xor_m mid wi w ins = xor_spec w ins.
 Proof. exact Xor_correct. Qed.
-Theorem C08_xor_mid_a : forall wi w ins, 0 <= w <= wi -> (2 <= length ins)%nat -> Forall (fits wi) ins -> Xor_m mid_a wi w ins = xor_spec w ins.
-Proof. exact Xor_correct_a. Qed.
-Theorem C08_xor_mid_max : forall wi w ins, 0 <= w -> 0 <= wi -> (2 <= length ins)%nat -> Forall (fits wi) ins -> Xor_m mid_max wi w ins = xor_spec w ins.
-Proof. exact Xor_correct_max. Qed.
 Theorem C08_nor : forall w0 wr ins, 0 <= w0 -> 0 <= wr -> ins <> [] -> Forall (fits w0) ins -> Nor_m w0 wr ins = nor_spec wr ins.
 Proof. exact Nor_correct. Qed.
 Theorem C08_andbits : forall wa wr a, 1 <= wa -> 1 <= wr -> fits wa a -> AndBits_m wa wr a = andbits_spec wa a.
 Proof. exact AndBits_correct. Qed.
 Theorem C08_orbits : forall wa wr a, 1 <= wa -> 1 <= wr -> fits wa a -> OrBits_m wa wr a = orbits_spec a.
 Proof. exact OrBits_correct. Qed.
-Example C08_gates_ex : And_m 3 [7; 6; 3; 7; 2] = 2 /\ Or_m 2 [1] = 1 /\ Xor_m mid_a 3 3 [5; 3; 6; 1] = 1 /\ Nor_m 2 2 [1; 0; 1] = 2 /\
-  AndBits_m 4 1 15 = 1 /\ OrBits_m 4 1 8 = 1 /\ Xor2_m mid_a 4 4 4 12 10 = 6 /\ Xor2_m mid_max 1 1 2 0 0 = 0 /\ Xor2_m mid_a 1 1 2 0 0 = 2 /\ Nand2_m 2 2 3 1 = 2.
+Example C08_gates_ex : And_m 3 [7; 6; 3; 7; 2] = 2 /\ Or_m 2 [1] = 1 /\ Xor_m mid_max 3 3 [5; 3; 6; 1] = 1 /\ Xor_m mid_max 1 3 [1; 1; 1] = 1 /\ Nor_m 2 2 [1; 0; 1] = 2 /\
+  AndBits_m 4 1 15 = 1 /\ OrBits_m 4 1 8 = 1 /\ Xor2_m mid_max 4 4 4 12 10 = 6 /\ Xor2_m mid_max 1 1 2 0 0 = 0 /\ Xor2_m mid_max 1 2 2 1 2 = 3 /\ Nand2_m 2 2 3 1 = 2.
 Proof. vm_compute. repeat split; reflexivity. Qed.
 
 (* ------------------------------------------------------------------ bit manipulation *)
@@ -146,25 +142,18 @@ Theorem C08_equal_constant_general : forall wa v a, 1 <= wa -> fits wa a -> Equa
 Proof. exact EqualConstant_general. Qed.
 Theorem C08_not_equal_constant : forall wa v a, 1 <= wa -> fits wa a -> fits wa v -> NotEqualConstant_m wa 1 v a = not_equal_spec a v.
 Proof. exact NotEqualConstant_correct. Qed.
-(* Equal's xor wire is  eqw wa wb  bits wide (`eqw`: the constructor's formula, probed).  Numerical equality whenever that wire holds both
-   operands and the Xor2 fills it. *)
-Theorem C08_equal : forall mid eqw wa wb a b, 1 <= eqw wa wb -> 0 <= wa <= eqw wa wb -> 0 <= wb <= eqw wa wb ->
-  eqw wa wb <= mid wa wb (eqw wa wb) -> fits wa a -> fits wb b -> Equal_m mid eqw wa wb a b = equal_spec a b.
-Proof. exact Equal_correct. Qed.
-(* formula of the tree BEFORE the repair of C08-equal-wider-b (xor wire of a's width): b no wider than a; otherwise b is compared modulo 2^wa *)
-Theorem C08_equal_eqw_a : forall mid wa wb a b, 1 <= wa -> 0 <= wb <= wa -> wa <= mid wa wb wa -> fits wa a -> fits wb b ->
-  Equal_m mid eqw_a wa wb a b = equal_spec a b.
-Proof. exact Equal_correct_a. Qed.
-Theorem C08_equal_general : forall mid wa wb a b, 1 <= wa -> 0 <= wb -> wa <= mid wa wb wa -> fits wa a -> fits wb b ->
-  Equal_m mid eqw_a wa wb a b = b2z (a =? b mod 2 ^ wa).
-Proof. exact Equal_general. Qed.
-Theorem C08_equal_wide_refuted : exists wa wb a b, fits wa a /\ fits wb b /\ Equal_m mid_a eqw_a wa wb a b <> equal_spec a b.
-Proof. exact Equal_wide_refuted. Qed.
-(* formulas AFTER both repairs (xor wire as wide as the wider operand, Xor2 internal wires as wide as everything): any two widths *)
-Theorem C08_equal_eqw_max : forall wa wb a b, 1 <= wa -> 1 <= wb -> fits wa a -> fits wb b ->
+(* Equal: xor wire as wide as the wider operand, on the Xor2 above: numerical equality for ANY two operand widths *)
+Theorem C08_equal : forall wa wb a b, 1 <= wa -> 1 <= wb -> fits wa a -> fits wb b ->
   Equal_m mid_max eqw_max wa wb a b = equal_spec a b.
 Proof. exact Equal_correct_max. Qed.
-Theorem C08_any_equal : forall mid eqw w wr ins, 1 <= w -> 1 <= wr -> eqw w w = w -> w <= mid w w w -> (2 <= length ins)%nat ->
+(* formula-generic: numerical equality whenever the xor wire holds both operands and the Xor2 fills it *)
+Theorem C08_equal_any_policy : forall mid eqw wa wb a b, 1 <= eqw wa wb -> 0 <= wa <= eqw wa wb -> 0 <= wb <= eqw wa wb ->
+  eqw wa wb <= mid wa wb (eqw wa wb) -> fits wa a -> fits wb b -> Equal_m mid eqw wa wb a b = equal_spec a b.
+Proof. exact Equal_correct. Qed.
+Theorem C08_any_equal : forall w wr ins, 1 <= w -> 1 <= wr -> (2 <= length ins)%nat -> Forall (fits w) ins ->
+  AnyEqual_m mid_max eqw_max w wr ins = any_equal_spec ins.
+Proof. exact AnyEqual_correct_max. Qed.
+Theorem C08_any_equal_any_policy : forall mid eqw w wr ins, 1 <= w -> 1 <= wr -> eqw w w = w -> w <= mid w w w -> (2 <= length ins)%nat ->
   Forall (fits w) ins -> AnyEqual_m mid eqw w wr ins = any_equal_spec ins.
 Proof. exact AnyEqual_correct. Qed.
 Theorem C08_any_equal_meaning : forall ins, any_equal_spec ins = 1 <->
@@ -174,26 +163,30 @@ Proof. exact any_equal_spec_iff. Qed.
 Theorem C08_comparator : forall w a b, 1 <= w -> fits w a -> fits w b -> Comparator_m w a b = cmp_spec a b.
 Proof. exact Comparator_correct. Qed.
 (* (gtu, eq, ltu, gt, lt): the signed outputs are the order of the two's complement readings, sign boundary included *)
-(* `1 <= mid 1 1 1`: the 1-bit Xor2s on the sign bits are exact — true of both formulas (mid_ok_a, mid_ok_max) *)
-Theorem C08_comparator_signed_unsigned : forall mid w a b, 1 <= mid 1 1 1 -> 1 <= w -> fits w a -> fits w b -> ComparatorSU_m mid w a b = cmp_su_spec w a b.
+Theorem C08_comparator_signed_unsigned : forall w a b, 1 <= w -> fits w a -> fits w b -> ComparatorSU_m mid_max w a b = cmp_su_spec w a b.
+Proof. exact ComparatorSU_correct_max. Qed.
+(* formula-generic: all that is needed is that the 1-bit Xor2s on the sign bits are exact *)
+Theorem C08_comparator_signed_unsigned_any_policy : forall mid w a b, 1 <= mid 1 1 1 -> 1 <= w -> fits w a -> fits w b ->
+  ComparatorSU_m mid w a b = cmp_su_spec w a b.
 Proof. exact ComparatorSU_correct. Qed.
 Theorem C08_max2 : forall w wr a b, 1 <= w -> 0 <= wr -> fits w a -> fits w b -> Max2_m w wr a b = max2_spec wr a b.
 Proof. exact Max2_correct. Qed.
 Theorem C08_min2 : forall w wr a b, 1 <= w -> 0 <= wr -> fits w a -> fits w b -> Min2_m w wr a b = min2_spec wr a b.
 Proof. exact Min2_correct. Qed.
-Theorem C08_signed_max2 : forall mid w wr a b, 1 <= mid 1 1 1 -> 1 <= w -> 0 <= wr -> fits w a -> fits w b -> SignedMax2_m mid w wr a b = smax2_spec w wr a b.
-Proof. exact SignedMax2_correct. Qed.
-Theorem C08_signed_min2 : forall mid w wr a b, 1 <= mid 1 1 1 -> 1 <= w -> 0 <= wr -> fits w a -> fits w b -> SignedMin2_m mid w wr a b = smin2_spec w wr a b.
-Proof. exact SignedMin2_correct. Qed.
-Theorem C08_signed_max_min_meaning : forall mid w a b, 1 <= mid 1 1 1 -> 1 <= w -> fits w a -> fits w b ->
-  sgn w (SignedMax2_m mid w w a b) = Z.max (sgn w a) (sgn w b) /\ sgn w (SignedMin2_m mid w w a b) = Z.min (sgn w a) (sgn w b).
-Proof. exact signed_max_is_max. Qed.
-Theorem C08_mid_formulas_ok : 1 <= mid_a 1 1 1 /\ 1 <= mid_max 1 1 1.
-Proof. exact (conj mid_ok_a mid_ok_max). Qed.
+Theorem C08_signed_max2 : forall w wr a b, 1 <= w -> 0 <= wr -> fits w a -> fits w b -> SignedMax2_m mid_max w wr a b = smax2_spec w wr a b.
+Proof. exact SignedMax2_correct_max. Qed.
+Theorem C08_signed_min2 : forall w wr a b, 1 <= w -> 0 <= wr -> fits w a -> fits w b -> SignedMin2_m mid_max w wr a b = smin2_spec w wr a b.
+Proof. exact SignedMin2_correct_max. Qed.
+Theorem C08_signed_max_min_meaning : forall w a b, 1 <= w -> fits w a -> fits w b ->
+  sgn w (SignedMax2_m mid_max w w a b) = Z.max (sgn w a) (sgn w b) /\ sgn w (SignedMin2_m mid_max w w a b) = Z.min (sgn w a) (sgn w b).
+Proof. exact signed_max_is_max_max. Qed.
+Theorem C08_signed_max_min_any_policy : forall mid w wr a b, 1 <= mid 1 1 1 -> 1 <= w -> 0 <= wr -> fits w a -> fits w b ->
+  SignedMax2_m mid w wr a b = smax2_spec w wr a b /\ SignedMin2_m mid w wr a b = smin2_spec w wr a b.
+Proof. exact (fun mid w wr a b Hm Hw Hwr Ha Hb => conj (SignedMax2_correct mid w wr a b Hm Hw Hwr Ha Hb) (SignedMin2_correct mid w wr a b Hm Hw Hwr Ha Hb)). Qed.
 Theorem C08_swap : forall wa wb a b swap, 0 <= wa -> 0 <= wb -> Swap_m wa wb a b swap = swap_spec wa wb a b swap.
 Proof. exact Swap_correct. Qed.
-Example C08_compare_ex : Comparator_m 4 9 12 = (0, 0, 1) /\ ComparatorSU_m mid_a 4 9 3 = (1, 0, 0, 0, 1) /\ ComparatorSU_m mid_max 4 8 7 = (1, 0, 0, 0, 1) /\
-  Max2_m 4 4 9 12 = 12 /\ SignedMax2_m mid_a 4 4 9 3 = 3 /\ SignedMin2_m mid_max 4 4 8 7 = 8 /\ Equal_m mid_a eqw_a 5 5 19 19 = 1 /\ Equal_m mid_max eqw_max 1 2 1 3 = 0 /\ Equal_m mid_a eqw_a 1 2 1 3 = 1 /\ AnyEqual_m mid_a eqw_a 3 1 [1; 5; 2; 5] = 1 /\
+Example C08_compare_ex : Comparator_m 4 9 12 = (0, 0, 1) /\ ComparatorSU_m mid_max 4 9 3 = (1, 0, 0, 0, 1) /\ ComparatorSU_m mid_max 4 8 7 = (1, 0, 0, 0, 1) /\
+  Max2_m 4 4 9 12 = 12 /\ SignedMax2_m mid_max 4 4 9 3 = 3 /\ SignedMin2_m mid_max 4 4 8 7 = 8 /\ Equal_m mid_max eqw_max 5 5 19 19 = 1 /\ Equal_m mid_max eqw_max 1 2 1 3 = 0 /\ Equal_m mid_max eqw_max 3 1 1 1 = 1 /\ AnyEqual_m mid_max eqw_max 3 1 [1; 5; 2; 5] = 1 /\
   EqualConstant_m 3 1 5 5 = 1 /\ NotEqualConstant_m 1 1 0 0 = 0 /\ Swap_m 3 3 1 6 1 = (6, 1) /\ fits 4 9 /\ fits 4 12.
 Proof. vm_compute. repeat split; try reflexivity; discriminate. Qed.
 
@@ -201,16 +194,27 @@ Proof. vm_compute. repeat split; try reflexivity; discriminate. Qed.
    would be listed here. *)
 Definition C08_all_theorems :=
   (C08_buf, C08_not, C08_constant, C08_and2, C08_or2,
-   C08_nand2, C08_nor2, C08_xor2, C08_xor2_general, C08_xor2_mid_a,
-   C08_xor2_wide_refuted, C08_xor2_mid_max, C08_and, C08_or, C08_xor,
-   C08_xor_mid_a, C08_xor_mid_max, C08_nor, C08_andbits, C08_orbits,
-   C08_bit, C08_range, C08_bits_lsbf, C08_bits_msbf, C08_repeat,
-   C08_bufenable, C08_concatenate_msbf, C08_concatenate_lsbf, C08_concatenate_msbf_exact, C08_concatenate_lsbf_exact,
-   C08_mux2, C08_mux, C08_decoder, C08_demux, C08_onehot_mux,
-   C08_select, C08_onehot_mux_selected, C08_onehot_demux, C08_select_default, C08_priority_encoder,
-   C08_priority_encoder_at, C08_minterm, C08_sum_of_minterms, C08_equal_constant, C08_equal_constant_general, C08_not_equal_constant,
-   C08_equal, C08_equal_eqw_a, C08_equal_general, C08_equal_wide_refuted, C08_equal_eqw_max,
-   C08_any_equal, C08_any_equal_meaning, C08_comparator, C08_comparator_signed_unsigned, C08_max2,
-   C08_min2, C08_signed_max2, C08_signed_min2, C08_signed_max_min_meaning, C08_mid_formulas_ok,
-   C08_swap).
+   C08_nand2, C08_nor2, C08_xor2, C08_xor2_any_policy, C08_xor2_general,
+   C08_and, C08_or, C08_xor, C08_xor_any_policy, C08_nor,
+   C08_andbits, C08_orbits, C08_bit, C08_range, C08_bits_lsbf,
+   C08_bits_msbf, C08_repeat, C08_bufenable, C08_concatenate_msbf, C08_concatenate_lsbf,
+   C08_concatenate_msbf_exact, C08_concatenate_lsbf_exact, C08_mux2, C08_mux, C08_decoder,
+   C08_demux, C08_onehot_mux, C08_select, C08_onehot_mux_selected, C08_onehot_demux,
+   C08_select_default, C08_priority_encoder, C08_priority_encoder_at, C08_minterm, C08_sum_of_minterms,
+   C08_equal_constant, C08_equal_constant_general, C08_not_equal_constant, C08_equal, C08_equal_any_policy,
+   C08_any_equal, C08_any_equal_any_policy, C08_any_equal_meaning, C08_comparator, C08_comparator_signed_unsigned,
+   C08_comparator_signed_unsigned_any_policy, C08_max2, C08_min2, C08_signed_max2, C08_signed_min2,
+   C08_signed_max_min_meaning, C08_signed_max_min_any_policy, C08_swap).
 Print Assumptions C08_all_theorems.
+
+(* names used by other developments (Proofs/C01/ComposePrim.v) for the two headline theorems *)
+Notation C08_xor2_mid_max := C08_xor2 (only parsing).
+Notation C08_equal_eqw_max := C08_equal (only parsing).
+
+(* ------------------------------------------------------------------ history: the width formulas BEFORE the repairs (mid_a, eqw_a).
+   These are facts about the parametric model instantiated with the OLD formulas, kept as a record of the two repaired findings; no
+   property theorem speaks about them.  The check fails if the probe finds these formulas in /repo again. *)
+Example C08_xor2_before_repair_c94f404 : exists wa wb wr a b, fits wa a /\ fits wb b /\ Xor2_m mid_a wa wb wr a b <> xor2_spec wr a b.
+Proof. exact Xor2_before_repair_witness. Qed.
+Example C08_equal_before_repair_3260a32 : exists wa wb a b, fits wa a /\ fits wb b /\ Equal_m mid_a eqw_a wa wb a b <> equal_spec a b.
+Proof. exact Equal_before_repair_witness. Qed.
